@@ -556,7 +556,6 @@ func (s *Store[K, V]) postDelete(entry *Entry[K, V]) {
 // remove entry from cache/policy/timingwheel and add back to pool
 // this method must be used with policy mutex together
 func (s *Store[K, V]) removeEntry(entry *Entry[K, V], reason RemoveReason) {
-	entry.flag.SetRemoved(true)
 	_, index := s.index(entry.key)
 	shard := s.shards[index]
 
@@ -565,9 +564,12 @@ func (s *Store[K, V]) removeEntry(entry *Entry[K, V], reason RemoveReason) {
 		// update expire filed are protected by shard mutex
 		verifExpireYield(entry)
 		if entry.expire.Load() > s.timerwheel.clock.NowNano() {
+			// not removed: the entry stays tracked by the policy and the UPDATE
+			// event of the write that extended the deadline re-schedules it
 			return
 		}
 	}
+	entry.flag.SetRemoved(true)
 
 	if prev := entry.meta.prev; prev != nil {
 		s.policy.Remove(entry, false)
@@ -667,7 +669,11 @@ func (s *Store[K, V]) sinkWrite(item WriteBufItem[K, V]) {
 		if expire := entry.expire.Load(); expire != 0 {
 			if expire <= s.timerwheel.clock.NowNano() {
 				s.removeEntry(entry, EXPIRED)
-				return
+				if entry.flag.IsRemoved() {
+					return
+				}
+				// the deadline was extended by a concurrent write: track the entry
+				// as usual, that write's UPDATE event schedules it
 			} else {
 				s.timerwheel.schedule(entry)
 			}
